@@ -295,17 +295,30 @@ class Fn:
             j += 1
         real = self.text[:j]
         norm = lambda s: re.sub(r'\s+', '', s)
-        # parameter list must be carried over verbatim
-        m = re.search(r'fn\s+\w+(?:<[^()]*>)?\s*(\(.*\))', real, re.S)
-        params = norm(m.group(1)).rstrip(',').replace(',)', ')')
+        # parameter list and return type must be carried over verbatim
+        m = re.search(r'fn\s+\w+(?:<[^()]*>)?\s*\(', real, re.S)
+        a = m.end() - 1
+        d = 0
+        b = a
+        while True:
+            if real[b] == '(':
+                d += 1
+            elif real[b] == ')':
+                d -= 1
+                if d == 0:
+                    break
+            b += 1
+        params = norm(real[a:b + 1]).replace(',)', ')')
         if params not in norm(new_header).replace(',)', ')'):
             self._lost('signature changed: %s' % re.sub(r'\s+', ' ', real))
-        ret = re.search(r'->\s*(.*)$', real[m.end():], re.S)
+        ret = re.search(r'->\s*(.*)$', real[b + 1:], re.S)
         if ret:
             r = norm(ret.group(1))
+            r = re.sub(r'where.*$', '', r)
             if r and r not in norm(new_header):
                 self._lost('return type changed: %s' % re.sub(r'\s+', ' ', real))
         self.text = new_header.rstrip() + '\n' + self.text[j:]
+        self.body_off = len(new_header.rstrip()) + 1
         return self
 
     def after(self, anchor, text, nth=None):
@@ -335,19 +348,22 @@ class Fn:
 
     def body_start(self, text):
         """insert at the very beginning of the body."""
-        mask = code_mask(self.text)
-        depth = 0
-        j = 0
-        while True:
-            c = self.text[j]
-            if mask[j]:
-                if c in '([':
-                    depth += 1
-                elif c in ')]':
-                    depth -= 1
-                elif c == '{' and depth == 0:
-                    break
-            j += 1
+        j = getattr(self, 'body_off', None)
+        if j is None:
+            mask = code_mask(self.text)
+            depth = 0
+            j = 0
+            while True:
+                c = self.text[j]
+                if mask[j]:
+                    if c in '([':
+                        depth += 1
+                    elif c in ')]':
+                        depth -= 1
+                    elif c == '{' and depth == 0:
+                        break
+                j += 1
+        assert self.text[j] == '{'
         self.text = self.text[:j + 1] + '\n' + text.rstrip('\n') + self.text[j + 1:]
         return self
 
@@ -523,3 +539,36 @@ def diag_kind(d):
 def is_resource_diag(d):
     m = d.get('message', '').lower()
     return 'rlimit' in m or 'resource limit' in m or 'timed out' in m or 'timeout' in m
+
+
+def byte_lit_to_int(expr):
+    """b'\\n' -> 10 (Verus has no byte-char literals in spec positions)."""
+    def conv(m):
+        body = m.group(1)
+        v = bytes(body, 'utf-8').decode('unicode_escape').encode('latin-1')
+        return '%du8' % v[0]
+    return re.sub(r"b'((?:\\.|\\x[0-9a-fA-F]{2}|[^'\\]))'", conv, expr)
+
+
+def const_decl(src, name):
+    ty, val = src.const_expr(name)
+    return 'pub const %s: %s = %s;\n' % (name, ty, byte_lit_to_int(val))
+
+
+def strip_attrs_and_docs(item):
+    """drop #[...] attributes and /// doc comments in front of / inside a type definition."""
+    item = re.sub(r'^\s*///.*\n', '', item, flags=re.M)
+    item = re.sub(r'^\s*#\[[^\]]*\]\s*\n', '', item, flags=re.M)
+    return item
+
+
+def type_item(src, kind, name, expect_variants=None):
+    """copy a struct/enum definition from /repo (derives / serde attributes / doc comments dropped)."""
+    t = strip_attrs_and_docs(src.item(kind, name))
+    if not t.startswith('pub'):
+        t = 'pub ' + t
+    if expect_variants is not None:
+        body = re.sub(r'\s+', '', t[t.index('{') + 1:t.rindex('}')] if '{' in t else t)
+        if body.rstrip(',') != re.sub(r'\s+', '', expect_variants).rstrip(','):
+            raise Undecided('%s: %s %s changed shape: %s' % (src.rel, kind, name, body))
+    return t + '\n'
